@@ -162,6 +162,11 @@ def run_case(ctx, rep, spec, gradp, reactions, floor, source, model, start=None,
             rep.agree(); rep.count("wf-certificate-passes")
         elif cert != "names":
             rep.tie(f"the converted plotfile does not pass the Lean well-formedness certificate ({cert})", case)
+        rc = tastelib.rows_model_check(out, leanio)
+        if rc is not None and not rc[1]:
+            rep.agree(); rep.count("rows-are-the-model's-true-extrema", rc[0])
+        elif rc is not None:
+            rep.tie(f"min/max rows of the converted plotfile differ from the extrema the Lean model computes from the written bytes: {rc[1][0]} (C17.extrema_are_true)", case)
         why = writers.global_header_theorem_applies(out, leanio)
         if why:
             rep.tie(f"global header of the converted plotfile: {why} (whose parse-after-render law is proved)", case)
